@@ -18,12 +18,22 @@ Link ==
          prior(i) == IF i = 1 THEN "none" ELSE Ev.fates[i - 1]
      IN viol' = viol
           \cup {V("C19", "no_wedge", [iface |-> Ev.iface, fate_before |-> prior(i), ms |-> us[i].ms]) : i \in {i \in ran : ~us[i].finished}}
+          \* every answer acted upon is the answer to the very request it was awaited for (peer answers are tagged
+          \* with the peer's request number; the requests of one update are attributed by arrival order:
+          \* rating = tariff lookup, reservation, tariff lookup; account = the debit)
           \cup {V("C19", "answer_matches_request", [iface |-> "abmf", misbehaving |-> Ev.iface, fate_before |-> prior(i)])
-                  : i \in {i \in ran : us[i].finished /\ us[i].usedAbmf # -1 /\ us[i].usedAbmf \notin ToSet(us[i].own.abmf)}}
+                  : i \in {i \in ran : us[i].finished /\ us[i].usedAbmf # -1
+                                       /\ ~(Len(us[i].own.abmf) >= 1 /\ us[i].usedAbmf = us[i].own.abmf[1])}}
           \cup {V("C19", "answer_matches_request", [iface |-> "rating", misbehaving |-> Ev.iface, fate_before |-> prior(i)])
-                  : i \in {i \in ran : us[i].finished /\ us[i].usedRating >= 0 /\ us[i].usedRating \notin ToSet(us[i].own.rating)}}
+                  : i \in {i \in ran : us[i].finished /\ us[i].usedRating >= 0
+                                       /\ ~(Len(us[i].own.rating) >= 2 /\ us[i].usedRating = us[i].own.rating[2])}}
           \cup {V("C19", "answer_matches_request", [iface |-> "rating-tariff", misbehaving |-> Ev.iface, fate_before |-> prior(i)])
-                  : i \in {i \in ran : us[i].finished /\ us[i].usedCost >= 0 /\ us[i].usedCost \notin ToSet(us[i].own.rating)}}
+                  : i \in {i \in ran : us[i].finished /\ us[i].usedCost >= 0
+                                       /\ ~(LET o == us[i].own.rating IN
+                                              (Len(o) >= 3 /\ us[i].usedCost = o[3]) \/ (Len(o) \in {1, 2} /\ us[i].usedCost = o[1]))}}
+          \cup {V("C19", "answer_matches_request", [iface |-> "rating-first-tariff", misbehaving |-> Ev.iface, fate_before |-> prior(i)])
+                  : i \in {i \in ran : us[i].finished /\ (us[i].usedCostFirst >= 0 \/ us[i].usedCostFirst = -3)
+                                       /\ ~(Len(us[i].own.rating) >= 1 /\ us[i].usedCostFirst = us[i].own.rating[1])}}
           \cup {V("C19", "request_fails_cleanly", [iface |-> Ev.iface, status |-> us[i].status]) : i \in {i \in ran : us[i].finished /\ us[i].status # 200}}
   /\ div' = div
 Leak ==
